@@ -245,7 +245,7 @@ func c14GenSched(c *Ctx, mode string) c14Sched {
 		}
 	}
 	if mode == "race" {
-		s.Reps = c.N(4, 20)
+		s.Reps = c.N(5, 25)
 	} else {
 		s.Reps = 1
 	}
@@ -287,7 +287,27 @@ func c14BuildRace() string {
 	return out
 }
 
-var c14FrameRe = regexp.MustCompile(`(?m)^(?:Write|Read|Previous write|Previous read) at .*\n\s+(\S+)\(\)`)
+var c14HeadRe = regexp.MustCompile(`^(?:Write|Read|Previous write|Previous read|Atomic write|Atomic read|Previous atomic write|Previous atomic read) at `)
+
+// c14RacePair: the first non-runtime function of the two access stacks of the first report.
+func c14RacePair(es string) []string {
+	pair := []string{}
+	lines := strings.Split(es, "\n")
+	for i := 0; i < len(lines) && len(pair) < 2; i++ {
+		if !c14HeadRe.MatchString(lines[i]) {
+			continue
+		}
+		for j := i + 1; j < len(lines) && strings.TrimSpace(lines[j]) != ""; j++ {
+			f := strings.TrimSpace(lines[j])
+			if strings.HasPrefix(f, "/") || strings.HasPrefix(f, "runtime.") || !strings.HasSuffix(f, ")") {
+				continue
+			}
+			pair = append(pair, strings.TrimSuffix(f, "()"))
+			break
+		}
+	}
+	return pair
+}
 
 // c14RunAll runs the schedules in the race-instrumented child and returns one result per schedule.
 func c14RunAll(c *Ctx, scheds []c14Sched) []map[string]any {
@@ -315,6 +335,7 @@ func c14RunAll(c *Ctx, scheds []c14Sched) []map[string]any {
 	f.Close()
 	results := make([]map[string]any, 0, len(scheds))
 	from := 0
+	failures := 0
 	for from < len(scheds) {
 		outFile := filepath.Join(tmp, fmt.Sprintf("c14-out-%d-%d.jsonl", os.Getpid(), from))
 		cmd := exec.Command(exe, "-prop", "C14", "-tier", c.Tier, "-seed", strconv.FormatUint(c.Seed, 10), "-out", outFile, "-tmp", tmp)
@@ -387,10 +408,7 @@ func c14RunAll(c *Ctx, scheds []c14Sched) []map[string]any {
 			fmt.Fprintf(os.Stderr, "c14: race child failed (exit %d) without a race, deadlock or panic report\n%s\n", code, tail(es, 3000))
 			os.Exit(2)
 		}
-		var pair []string
-		for _, m := range c14FrameRe.FindAllStringSubmatch(es, 2) {
-			pair = append(pair, m[1])
-		}
+		pair := c14RacePair(es)
 		rep := es
 		if i := strings.Index(rep, "WARNING: DATA RACE"); i >= 0 {
 			rep = rep[i:]
@@ -403,11 +421,18 @@ func c14RunAll(c *Ctx, scheds []c14Sched) []map[string]any {
 			rep = rep[:4000]
 		}
 		c.Count("child.failure")
+		failures++
 		results = append(results, map[string]any{
 			"sched": scheds[from], "impl": map[string]any{"race": race, "deadlock": deadlock, "panic": pnc},
 			"diffs": []any{}, "pair": pair, "report": rep,
 		})
 		from++
+		if failures >= 3 {
+			// the property is already refuted three times over; a deadlocking server would
+			// otherwise cost one watchdog period per remaining schedule
+			c.Stats["skipped.after-failures"] += len(scheds) - from
+			break
+		}
 	}
 	os.Remove(schedFile)
 	return results
@@ -426,8 +451,8 @@ func genC14(c *Ctx) {
 		return
 	}
 	var scheds []c14Sched
-	nRace := c.N(40, 300)
-	nResp := c.N(30, 250)
+	nRace := c.N(80, 400)
+	nResp := c.N(60, 300)
 	for i := 0; i < nRace; i++ {
 		scheds = append(scheds, c14GenSched(c, "race"))
 	}
@@ -475,8 +500,8 @@ func c14Watchdog() {
 			continue
 		}
 		stuck++
-		if stuck >= 30 {
-			c14Die("no progress for 30 s")
+		if stuck >= 10 {
+			c14Die("no progress for 10 s")
 		}
 	}
 }
@@ -599,14 +624,14 @@ func c14Busy() (publish, refresh int) {
 }
 
 func c14Wait(what string) {
-	deadline := time.Now().Add(30 * time.Second)
+	deadline := time.Now().Add(10 * time.Second)
 	for {
 		p, r := c14Busy()
 		if (what == "refresh" && r == 0) || (what == "all" && p == 0 && r == 0) {
 			return
 		}
 		if time.Now().After(deadline) {
-			c14Die(fmt.Sprintf("background goroutines still alive after 30 s (publish=%d refresh=%d)", p, r))
+			c14Die(fmt.Sprintf("background goroutines still alive after 10 s (publish=%d refresh=%d)", p, r))
 		}
 		time.Sleep(100 * time.Microsecond)
 	}
